@@ -81,6 +81,8 @@ static void op_ctx_from_files(void)
 	int fault = (int)rng_below(&g_orng, 6);           /* 0,1 none; 2 wrong sign password; 3 wrong kenc password; 4 damaged sign key; 5 truncated kenc key */
 	leak_add_secret("password", (const uint8_t *)sign_pass, strlen(sign_pass));
 	leak_add_secret("password", (const uint8_t *)kenc_pass, strlen(kenc_pass));
+	leak_add_secret("password", (const uint8_t *)"not the sign password", 21);
+	leak_add_secret("password", (const uint8_t *)"not the kenc password", 21);
 	note_secret_key(&cs->srv_sign.key); note_secret_key(&cs->srv_enc.key); note_secret_key(&cs->cli_sign.key);
 	uint8_t chain[MAX_CHAIN]; size_t chainlen = 0;
 	const SM2_KEY *skey = which == 2 ? &cs->cli_sign.key : &cs->srv_sign.key;
